@@ -18,7 +18,8 @@ JOINTS = ['hinge', 'slide', 'ball']
 
 
 @st.composite
-def spec_programs(draw, max_bodies=5):
+def spec_programs(draw, max_bodies=5, unsafe_order=True):
+  unsafe = False
   nb = draw(st.integers(1, max_bodies))
   ncls = draw(st.integers(0, 3))
   classes = []
@@ -54,16 +55,21 @@ def spec_programs(draw, max_bodies=5):
                               range=[-draw(num(0.1, 1.5)), draw(num(0.1, 1.5))] if jt != 'ball' and draw(st.integers(0, 2)) == 0
                               else None,
                               cls=draw(st.sampled_from([None] + [c['name'] for c in classes])) if classes else None))
-    for k in range(draw(st.integers(1, 2))):
+    ng = draw(st.integers(1, 2))
+    for k in range(ng):
       gt = draw(st.sampled_from(GEOMS))
-      g = dict(name='g%d_%d' % (i, k), type=gt, size=[draw(num(0.03, 0.3)) for _ in range(3)],
+      nsz = dict(sphere=1, capsule=2, cylinder=2).get(gt, 3)      # unused size components stay 0 (they are not saved)
+      g = dict(name='g%d_%d' % (i, k), type=gt, size=[draw(num(0.03, 0.3)) if q < nsz else 0 for q in range(3)],
                pos=[draw(num(-0.2, 0.2)) for _ in range(3)], quat=draw(mg.unit_quat()),
                cls=draw(st.sampled_from([None] + [c['name'] for c in classes])) if classes else None,
                density=draw(num(100, 3000, 0)) if draw(st.booleans()) else None,
                friction=[draw(num(0.1, 1.5)), 0.005, 0.0001] if draw(st.integers(0, 2)) == 0 else None,
                frame=None)
-      if draw(st.integers(0, 3)) == 0:
+      # a framed geom followed by an unframed sibling is the known writer reordering (C32 finding): keep it rare
+      if draw(st.integers(0, 3)) == 0 and (k == ng - 1 or (unsafe_order and draw(st.integers(0, 3)) == 0)):
         g['frame'] = dict(pos=[draw(num(-0.3, 0.3)) for _ in range(3)], quat=draw(mg.unit_quat()), name=None)
+        if k < ng - 1:
+          unsafe = True
       b['geoms'].append(g)
     if draw(st.booleans()):
       b['sites'].append(dict(name='s%d' % i, pos=[draw(num(-0.2, 0.2)) for _ in range(3)], quat=draw(mg.unit_quat()),
@@ -80,7 +86,9 @@ def spec_programs(draw, max_bodies=5):
     labels.append('specapi:frame')
   if any(b['childclass'] for b in bodies):
     labels.append('specapi:childclass')
-  return dict(classes=classes, bodies=bodies, opt=opt, labels=labels)
+  if unsafe:
+    labels.append('frame-order-unsafe')
+  return dict(classes=classes, bodies=bodies, opt=opt, labels=labels, unsafe=unsafe)
 
 
 def _S(lib, kind, ptr):
